@@ -4,6 +4,7 @@ import Gtree.Model.Api
 import Gtree.Lemmas.MkdirVerify
 import Gtree.Lemmas.MkInterleave
 import Gtree.Lemmas.VerifyExt
+import Gtree.Lemmas.TreeFacts
 /-
   C08 — verify reports exactly the differences (over the finite-map file system model).
   `verifyRootsApi` returns only an `Option Err`: it has no file-system result, i.e. it cannot change
@@ -179,4 +180,17 @@ theorem C08_required_paths_are_the_source (h : SrcH.Heap) (dv : SrcH.defaultVeri
     SrcH.defaultVerifierSimple.fillDirsMarkdown fuel h dv p dirs =
       some (SrcH.insertAll dirs ((SrcH.readNode h t p lvl).map (fun v => filepathJoin [dv.targetDir, v.path])), none) :=
   SrcH.fill_node h dv t p par lvl fuel dirs hr hf
+end Gtree
+
+namespace Gtree
+
+/-- **C08 (facts: composition).**  Both Verify operations of the simple tree enable validation, grow, and call the
+    verifier, which is the `defaultVerifierSimple` built from the configured target directory and strictness. -/
+theorem C08_facts_verify_grows_then_verifies :
+    lookupL "verify" Facts.treeSimpleCalls = ["grower.enableValidation", "grower.grow", "verifier.verify"] ∧
+    lookupL "verifyProgrammably" Facts.treeSimpleCalls = ["grower.enableValidation", "grower.grow", "verifier.verify"] ∧
+    lookupL "verifier" Facts.treeSimpleFields = ["verifierFactory", "cfg.targetDir", "cfg.strictVerify"] ∧
+    lookupL "verifierFactory" Facts.factoryCtors = ["newVerifierSimple"] ∧
+    lookupL "newVerifierSimple" Facts.ctorReturns = ["defaultVerifierSimple"] := by decide
+
 end Gtree
